@@ -489,7 +489,10 @@ func Equal(a, b Value) *term.T {
 		_, ok := b.(NilFunc)
 		return term.Bool(false && ok)
 	}
-	panic(fmt.Sprintf("Equal: unsupported %T", a))
+	if p, ok := a.(Poison); ok {
+		panic(pathEnd{"poison", "comparison of a poisoned value: " + p.Why})
+	}
+	panic(pathEnd{"unsupported", fmt.Sprintf("Equal: unsupported %T", a)})
 }
 
 // keyString returns a canonical string for a fully concrete comparable value.
